@@ -41,13 +41,18 @@ def defs(style="single"):
             rg.struct_src("Wrap", [("k", "Kind"), ("f", "Foo")]))
 
 
+TUPLE_DEFS = ("#[derive(Serialize, Deserialize)]\npub struct Pair(pub i32, pub Foo);\n\n#[derive(Serialize, Deserialize)]\npub struct Id(pub u32);\n\n")
+TUPLE_NAMES = ("Pair", "Id")
+GENERIC_DEFS = "#[derive(Serialize, Deserialize)]\npub struct Page<T> {\n    pub items: Vec<T>,\n    pub total: u32,\n}\n\n"
+# names that dangle when an instantiation Page<Foo> is printed verbatim (and, in Zod mode, read as the comparison Page < Foo > Schema)
+GENERIC_DANGLING = {"Page", "PageSchema", "T", "Foo", "Kind", "Schema", "FooSchema", "KindSchema", "Vec", "Option"}
 DEFS = defs()
 HDR = rg.PRELUDE + "use tauri::{AppHandle, Emitter, ipc::Channel};\n\n"
 
 
-def site_project(site, t, with_events=False, style="single"):
+def site_project(site, t, with_events=False, style="single", extra_defs=""):
     r = rg.rust(t)
-    src = [HDR, defs(style), rg.command_src("base_cmd", [("w", "Wrap")], "Wrap")]
+    src = [HDR, defs(style), extra_defs, rg.command_src("base_cmd", [("w", "Wrap")], "Wrap")]
     if site == "param":
         src.append(rg.command_src("probe", [("p", r)], "i32"))
     elif site == "return":
@@ -76,7 +81,7 @@ def event_projects():
     return P
 
 
-def analyse(g, mode, defined=("Foo", "Kind", "Wrap")):
+def analyse(g, mode, defined=("Foo", "Kind", "Wrap"), generic_probe=False):
     """-> list of (problem class, file, detail, names)"""
     probs = []
     out = g.output
@@ -85,6 +90,11 @@ def analyse(g, mode, defined=("Foo", "Kind", "Wrap")):
     for (f, item, kind, name, why) in resolve.unresolved(out):
         cls = "unresolved-%s" % kind
         known = classify(out, cls, f, item, name)
+        bare = name.split(".")[-1]
+        if not known and (bare in TUPLE_NAMES or (bare.endswith("Schema") and bare[:-6] in TUPLE_NAMES)):
+            known = "tuple-struct-reference-unresolved"      # defect model: a tuple struct is never declared, so every reference to it dangles
+        if not known and generic_probe and bare in GENERIC_DANGLING:
+            known = "generic-struct-instantiation-printed-verbatim"   # defect model: `Page<Foo>` is copied into the output as text
         probs.append((cls, f, "%s: in %r the %s reference %r: %s" % (f, item, kind, name, why), known))
     for f, m in out.mods.items():
         info = resolve.ModInfo(f, m)
@@ -114,7 +124,7 @@ def run_probe(a):
             return {"inconclusive": "watchdog"}
         if g.run.rc != 0 or not g.files():
             return {"blocked": "rc=%s" % g.run.rc}
-        probs = analyse(g, mode)
+        probs = analyse(g, mode, generic_probe=meta.get("kind") == "generic-struct")
         if probs is None:
             pf = common.parse_fault(g.output)
             return {"probs": [("module-does-not-parse " + pf[0], pf[0].split(" ")[0], pf[1], None)], "refs": 0, "files": len(g.output.mods)}
@@ -186,6 +196,20 @@ def run(tier):
                         style = rg.DERIVE_STYLES[len(jobs) % len(rg.DERIVE_STYLES)]   # equivalent layouts of the derive attributes
                         jobs.append((cli, "%s/%s/%s" % (site, plabel, kind), site_project(site, t, we, style), mode,
                                      {"site": site, "position": plabel, "kind": kind, "type": t}))
+    # serde tuple structs (struct Id(pub u32); struct Pair(pub i32, pub Foo);) are project-defined serde structs as well
+    for kind in TUPLE_NAMES:
+        for (plabel, pf) in positions[:8]:
+            t = pf(rg.N(kind))
+            for site in SITES:
+                for mode in ("none", "zod"):
+                    jobs.append((cli, "%s/%s/%s" % (site, plabel, kind), site_project(site, t, extra_defs=TUPLE_DEFS), mode,
+                                 {"site": site, "position": plabel, "kind": "tuple-struct", "type": t}))
+    # instantiations of a project-defined generic serde struct (struct Page<T> { items: Vec<T>, .. } used as Page<Foo>)
+    for text in ("Page<Foo>", "Vec<Page<Kind>>", "Option<Page<Foo>>", "Page<Vec<Foo>>"):
+        for site in SITES:
+            for mode in ("none", "zod"):
+                jobs.append((cli, "generic/%s/%s" % (site, text), site_project(site, ("raw", text), extra_defs=GENERIC_DEFS), mode,
+                             {"site": site, "position": "generic-instantiation", "kind": "generic-struct", "type": None}))
     # precondition variant: the named type is not defined in the project but covered by a type mapping
     for (plabel, pf) in positions:
         t = pf(rg.N("Timestamp"))
@@ -242,7 +266,7 @@ def run(tier):
         for (cls, f, detail, known) in r["probs"]:
             if known and not isinstance(known, str):
                 known = None
-            if known and known.startswith("namespace-"):
+            if known and known.startswith(("namespace-", "tuple-struct-", "generic-struct-")):
                 sig = "C02 %s" % known
             elif meta["site"] == "compound":
                 sig = "C02 compound %s %s" % (cls, f)
